@@ -52,6 +52,8 @@ PACKAGES['vfq_c2'] = {'types': [gen.stype('pr', [gen.key('kq', 'vf.dtsupport.Sho
 # application schema): importing it is refused, and nothing of it may survive the refusal
 PACKAGES['vfq_bad'] = {'types': [gen.stype('px', [gen.key('kx')], implements='aa'),
                                  gen.stype('ta', [gen.key('ka')])], 'broken': True}
+# a component that names a stock datatype by its dotted path
+PACKAGES['vfq_dt'] = {'types': [gen.stype('pd', [gen.key('kd', 'ZConfig.datatypes.integer', default='1')], implements='aa')]}
 _PK = {}
 
 
